@@ -188,7 +188,10 @@ def evaluate(case):
             outcomes.append((n, result))
             if obs_cal is not None and obs_cal != cal:
                 V.append({"sig": "C14:model-mismatch:calibration-size", "msg": f"alpha={alpha} n={n}: implementation calibrated on {obs_cal} rows, arithmetic model says {cal}"})
-            if ok and result != "finite":
+            if cal >= 1 and abs(alpha * (1 + 1 / cal) - 1) < 1e-9:
+                # float knife edge of the quantile level (only reachable below the minimum): either outcome conforms
+                cov["quantile_knife_edge_skipped"] += 1
+            elif ok and result != "finite":
                 V.append({"sig": f"C14:nonparametric:P-holds-but-{result.split(':')[0]}", "msg": f"alpha={alpha} n={n} train={train} cal={cal}: P holds but the model gave {result}"})
                 cov["P_true_failed"] += 1
             elif not ok and result == "finite":
